@@ -2,6 +2,7 @@ package nfa
 
 import (
 	"regexp/syntax"
+	"unicode/utf8"
 )
 
 // FirstByteSet represents the set of bytes that can start a match.
@@ -77,8 +78,10 @@ func extractFirstBytesRecursive(re *syntax.Regexp, result *FirstByteSet, depth i
 			return false // Empty literal matches empty string
 		}
 		r := re.Rune[0]
-		if r > 255 {
-			return false // Non-ASCII, too complex
+		if r >= utf8.RuneSelf || re.Flags&syntax.FoldCase != 0 {
+			// A non-ASCII rune is multi-byte in UTF-8 (é is C3 A9, not E9) and a
+			// case-folded literal has several first bytes (a/A, k/K/U+212A).
+			return false
 		}
 		result.bytes[byte(r)] = true
 		result.count++
@@ -88,11 +91,13 @@ func extractFirstBytesRecursive(re *syntax.Regexp, result *FirstByteSet, depth i
 		// Character class: add all bytes in the class
 		for i := 0; i < len(re.Rune); i += 2 {
 			lo, hi := re.Rune[i], re.Rune[i+1]
-			if hi > 255 {
-				hi = 255 // Truncate to ASCII
-			}
-			if lo > 255 {
-				continue // Skip non-ASCII ranges
+			if hi >= utf8.RuneSelf {
+				// Non-ASCII runes are multi-byte in UTF-8 (é is C3 A9, not E9) and
+				// U+FFFD also matches invalid bytes: any byte >= 0x80 can start one.
+				hi = 255
+				if lo > utf8.RuneSelf {
+					lo = utf8.RuneSelf
+				}
 			}
 			for r := lo; r <= hi; r++ {
 				if !result.bytes[byte(r)] {
